@@ -421,6 +421,9 @@ Section Proofs.
     - eauto.
   Qed.
 
+  Lemma Forall2_len {A B} (Rl : A -> B -> Prop) l1 l2 : Forall2 Rl l1 l2 -> length l1 = length l2.
+  Proof. induction 1; simpl; auto. Qed.
+
   Lemma asect_at (a : astate) i p m k :
     nth_error (snd a) i = Some p -> norm p = Acq m k ->
     asect i a = (fst (run_sect k (fst a)), upd (snd a) i (snd (run_sect k (fst a)))).
@@ -535,4 +538,248 @@ Section Proofs.
     { intros a b Ha Hb Hab Hp. eapply realtime_subseq; eauto. apply acq_order_subseq. }
     split; [rewrite Hst; auto|]. split; auto.
   Qed.
+
+  (* ---------------------------------------------------------------- Part 3: the request gate *)
+  Lemma wf_of_norm h (p : prog) : wf h (norm p) -> wf h p.
+  Proof. induction p; simpl; auto. Qed.
+
+  Lemma repeat_nth {A} (x : A) n i y : nth_error (repeat x n) i = Some y -> y = x /\ i < n.
+  Proof. revert i; induction n; intros [|i] H; simpl in *; try discriminate. - inversion H; split; auto; lia. - destruct (IHn _ H); split; auto; lia. Qed.
+
+  Lemma spec_serial_snoc (qs : list (greq St Resp)) done i s0 :
+    spec_serial qs (done ++ [i]) s0 = spec_step qs (spec_serial qs done s0) i.
+  Proof. unfold spec_serial. rewrite fold_left_app. reflexivity. Qed.
+
+  Inductive phase := Ph0 | PhA | PhH | PhD.
+
+  Section Gate.
+    Variable qs : list (greq St Resp).
+    Variable progs : list prog.
+    Variable s0 : St.
+    Variable Inv : St -> Prop.
+    Hypothesis Hprogs : Forall2 (fun p q => norm p = gprog q) progs qs.
+    Hypothesis HwfH : forall q, In q qs -> wf None (g_H q).
+    Hypothesis HoneH : forall q, In q qs -> one_section (g_H q).
+    Hypothesis absent_obs : forall q s s', In q qs -> obs s = obs s' -> g_absent q s = g_absent q s'.
+    Hypothesis P_obs : forall q s s', In q qs -> obs s = obs s' -> obs (g_P q s) = obs (g_P q s').
+    Hypothesis g1_ro : forall q s, In q qs -> obs (g_g1 q s) = obs s.
+    Hypothesis Inv_obs : forall s s', obs s = obs s' -> Inv s -> Inv s'.
+    Hypothesis Inv_P : forall q s, In q qs -> Inv s -> Inv (g_P q s).
+    Hypothesis Inv_H : forall q s, In q qs -> Inv s -> Inv (fst (run_prog (g_H q) s)).
+    Hypothesis Inv0 : Inv s0.
+    Hypothesis agree : forall q q' s, In q qs -> In q' qs -> Inv s -> g_absent q s = g_absent q' s.
+    Hypothesis coher : forall q q' s, In q qs -> In q' qs -> Inv s -> g_absent q s = true -> obs (g_P q s) = obs (g_P q' s).
+    Hypothesis P_noop : forall q s, In q qs -> Inv s -> g_absent q s = false -> obs (g_P q s) = obs s.
+    Hypothesis P_present : forall q s, In q qs -> Inv s -> g_absent q (g_P q s) = false.
+    Hypothesis stable : forall q q' s, In q qs -> In q' qs -> Inv s -> g_absent q s = false ->
+                                       g_absent q (fst (run_prog (g_H q') s)) = false.
+
+    Lemma gprog_wf q : In q qs -> wf None (gprog q).
+    Proof.
+      intro Hq. unfold gprog, gated. simpl. split; [reflexivity|]. split; [|split].
+      - exists Rd. split; [reflexivity|]. intros _ s. apply g1_ro; auto.
+      - intros s s' Ho. split.
+        + rewrite !g1_ro by auto. auto.
+        + rewrite (absent_obs q s s' Hq Ho). reflexivity.
+      - intros s. split; [discriminate|]. destruct (g_absent q s); [|apply HwfH; auto].
+        simpl. split; [reflexivity|]. split; [|split].
+        + exists Wr. split; [reflexivity|]. discriminate.
+        + intros s1 s2 Ho. split; auto.
+        + intros _. split; [discriminate|apply HwfH; auto].
+    Qed.
+
+    Lemma progs_wf : Forall (wf None) progs.
+    Proof.
+      apply Forall_forall. intros p Hp. destruct (In_nth_error _ _ Hp) as [i Hi].
+      destruct (Forall2_nth _ _ _ _ _ Hprogs Hi) as [q [Hq Hn]]. apply wf_of_norm. rewrite Hn.
+      apply gprog_wf. eapply nth_error_In; eauto.
+    Qed.
+
+    Definition G (phs : list phase) (a : astate) (done : list nat) : Prop :=
+      let acc := spec_serial qs done s0 in
+      length phs = length qs /\ length (snd a) = length qs /\
+      Inv (fst a) /\ Inv (fst acc) /\
+      (forall i ph, nth_error phs i = Some ph ->
+         exists q pa, nth_error qs i = Some q /\ nth_error (snd a) i = Some pa /\
+           match ph with
+           | Ph0 => norm pa = gprog q
+           | PhA => pa = Acq Wr (Step (g_P q) (fun _ => Rel (g_H q)))
+           | PhH => pa = g_H q /\ g_absent q (fst a) = false
+           | PhD => In i done
+           end) /\
+      (forall i, In i done -> nth_error phs i = Some PhD) /\
+      map fst (snd acc) = done /\ NoDup done /\
+      (forall i r, In (i, r) (snd acc) -> exists pa, nth_error (snd a) i = Some pa /\ norm pa = Ret r) /\
+      (obs (fst a) = obs (fst acc) \/
+       exists i q, nth_error phs i = Some PhH /\ nth_error qs i = Some q /\ obs (fst a) = obs (g_P q (fst acc))).
+
+    Lemma G_init : G (repeat Ph0 (length qs)) (s0, progs) [].
+    Proof.
+      unfold G, spec_serial; simpl. rewrite repeat_length.
+      split; [auto|]. split; [eapply Forall2_len; eauto|]. split; [auto|]. split; [auto|]. split.
+      { intros i ph Hn. destruct (repeat_nth _ _ _ _ Hn) as [-> Hlt].
+        destruct (nth_error qs i) as [q|] eqn:Eq; [|apply nth_error_None in Eq; lia].
+        destruct (Forall2_nth_r _ _ _ _ _ Hprogs Eq) as [p [Hp Hnp]]. eauto. }
+      split; [intros i []|]. split; [auto|]. split; [constructor|]. split; [intros i r []|]. left; auto.
+    Qed.
+
+    Lemma G_step phs (a : astate) done i pa m k :
+      G phs a done -> nth_error (snd a) i = Some pa -> norm pa = Acq m k ->
+      exists phs' done', G phs' (asect i a) done' /\ (done' = done \/ done' = done ++ [i]).
+    Proof.
+      intros [Hlp [Hla [Hia [His [Hth [Hdone [Hmap [Hnd [Hres Hrel]]]]]]]]] Hi Hn.
+      destruct a as [sa pas]; simpl in *.
+      set (acc := spec_serial qs done s0) in *.
+      assert (Hlt : i < length pas) by (eapply nth_some_lt; eauto).
+      destruct (nth_error phs i) as [ph|] eqn:Eph; [|apply nth_error_None in Eph; lia].
+      destruct (Hth _ _ Eph) as [q [pa' [Eq [Epa Hph]]]]. rewrite Hi in Epa. inversion Epa; subst pa'; clear Epa.
+      assert (Hq : In q qs) by (eapply nth_error_In; eauto).
+      rewrite (asect_at (sa, pas) _ _ _ _ Hi Hn); simpl.
+      destruct ph.
+      - (* Ph0: the check under the shared lock *)
+        rewrite Hph in Hn. unfold gprog, gated in Hn. inversion Hn; subst m k; clear Hn. simpl.
+        exists (upd phs i (if g_absent q sa then PhA else PhH)), done. split; [|left; reflexivity].
+        assert (Hog : obs (g_g1 q sa) = obs sa) by (apply g1_ro; auto).
+        unfold G; simpl. fold acc. rewrite !upd_length.
+        split; [auto|]. split; [auto|]. split; [eapply Inv_obs; [symmetry; exact Hog|auto]|]. split; [auto|]. split.
+        { intros j ph Hj. apply nth_upd in Hj. destruct Hj as [[-> ->]|[Hne Hj]].
+          - exists q. rewrite nth_upd_same by auto. eexists. split; [auto|]. split; [reflexivity|].
+            destruct (g_absent q sa) eqn:Eab; [reflexivity|]. split; auto.
+            rewrite (absent_obs q _ _ Hq Hog). auto.
+          - destruct (Hth _ _ Hj) as [q' [pa' [Eq' [Epa' Hph']]]]. exists q', pa'. rewrite nth_upd_other by auto.
+            split; auto. split; auto. destruct ph; auto. destruct Hph' as [-> Hab]. split; auto.
+            rewrite (absent_obs q' _ _ (nth_error_In _ _ Eq') Hog). auto. }
+        split.
+        { intros j Hj. rewrite nth_upd_other; auto. intro E; subst j. rewrite (Hdone _ Hj) in Eph. discriminate. }
+        split; [auto|]. split; [auto|]. split.
+        { intros j r Hin. destruct (Hres _ _ Hin) as [pa' [Hpa' Hr]]. exists pa'. split; auto.
+          rewrite nth_upd_other; auto. intro E; subst j.
+          assert (In i done) by (rewrite <- Hmap; apply in_map_iff; exists (i, r); auto).
+          rewrite (Hdone _ H) in Eph. discriminate. }
+        destruct Hrel as [Hl|[w [qw [Hw [Eqw Ho]]]]].
+        + left. congruence.
+        + right. exists w, qw. split; [|split; [auto|congruence]].
+          rewrite nth_upd_other; auto. intro E; subst w. congruence.
+      - (* PhA: provisioning under the exclusive lock *)
+        subst pa. simpl in Hn. inversion Hn; subst m k; clear Hn. simpl.
+        exists (upd phs i PhH), done. split; [|left; reflexivity].
+        assert (HiP : Inv (g_P q sa)) by (apply Inv_P; auto).
+        unfold G; simpl. fold acc. rewrite !upd_length.
+        split; [auto|]. split; [auto|]. split; [auto|]. split; [auto|]. split.
+        { intros j ph Hj. apply nth_upd in Hj. destruct Hj as [[-> ->]|[Hne Hj]].
+          - exists q. rewrite nth_upd_same by auto. eexists. split; [auto|]. split; [reflexivity|]. split; auto.
+          - destruct (Hth _ _ Hj) as [q' [pa' [Eq' [Epa' Hph']]]]. exists q', pa'. rewrite nth_upd_other by auto.
+            split; auto. split; auto. destruct ph; auto. destruct Hph' as [-> Hab]. split; auto.
+            rewrite (agree q' q _ (nth_error_In _ _ Eq') Hq HiP). auto. }
+        split.
+        { intros j Hj. rewrite nth_upd_other; auto. intro E; subst j. rewrite (Hdone _ Hj) in Eph. discriminate. }
+        split; [auto|]. split; [auto|]. split.
+        { intros j r Hin. destruct (Hres _ _ Hin) as [pa' [Hpa' Hr]]. exists pa'. split; auto.
+          rewrite nth_upd_other; auto. intro E; subst j.
+          assert (In i done) by (rewrite <- Hmap; apply in_map_iff; exists (i, r); auto).
+          rewrite (Hdone _ H) in Eph. discriminate. }
+        right. destruct Hrel as [Hl|[w [qw [Hw [Eqw Ho]]]]].
+        + exists i, q. split; [apply nth_upd_same; lia|]. split; auto.
+        + assert (Hqw : In qw qs) by (eapply nth_error_In; eauto).
+          exists w, qw. split; [rewrite nth_upd_other; auto; intro E; subst w; congruence|]. split; auto.
+          rewrite <- Ho. apply P_noop; auto.
+          rewrite (absent_obs q _ _ Hq Ho). rewrite (agree q qw _ Hq Hqw (Inv_P _ _ Hqw His)). apply P_present; auto.
+      - (* PhH: the handler's own section *)
+        destruct Hph as [-> Hab].
+        destruct (HoneH q Hq) as [m' [k' [Hn' Htail]]]. rewrite Hn in Hn'. inversion Hn'; subst m' k'.
+        destruct (Htail sa) as [r Hr].
+        pose proof (one_section_run _ _ _ _ _ Hn Hr) as Hrun.
+        assert (Hkey : obs sa = obs (g_P q (fst acc))).
+        { destruct Hrel as [Hl|[w [qw [Hw [Eqw Ho]]]]].
+          - rewrite Hl. symmetry. apply P_noop; auto. rewrite <- (absent_obs q _ _ Hq Hl). auto.
+          - assert (Hqw : In qw qs) by (eapply nth_error_In; eauto).
+            rewrite Ho. destruct (g_absent qw (fst acc)) eqn:Eaw.
+            + apply coher; auto.
+            + rewrite (P_noop qw _ Hqw His Eaw). symmetry. apply P_noop; auto.
+              rewrite (agree q qw _ Hq Hqw His). auto. }
+        destruct (run_prog_obs (g_H q) None _ _ (HwfH q Hq) Hkey) as [Hofst Hosnd].
+        rewrite Hrun in Hofst, Hosnd. simpl in Hofst, Hosnd.
+        assert (Hni : ~ In i done) by (intro Hin; rewrite (Hdone _ Hin) in Eph; discriminate).
+        exists (upd phs i PhD), (done ++ [i]). split; [|right; reflexivity].
+        assert (Hsa' : fst (run_sect k sa) = fst (run_prog (g_H q) sa)) by (rewrite Hrun; reflexivity).
+        unfold G. rewrite spec_serial_snoc. fold acc. unfold spec_step. rewrite Eq. simpl. rewrite !upd_length.
+        split; [auto|]. split; [auto|]. split; [rewrite Hsa'; apply Inv_H; auto|]. split; [apply Inv_H; auto|]. split.
+        { intros j ph Hj. apply nth_upd in Hj. destruct Hj as [[-> ->]|[Hne Hj]].
+          - exists q. rewrite nth_upd_same by auto. eexists. split; [auto|]. split; [reflexivity|].
+            apply in_or_app. right. left. reflexivity.
+          - destruct (Hth _ _ Hj) as [q' [pa' [Eq' [Epa' Hph']]]]. exists q', pa'. rewrite nth_upd_other by auto.
+            split; auto. split; auto. destruct ph; auto.
+            + destruct Hph' as [-> Hab']. split; auto. rewrite Hsa'. apply stable; auto. eapply nth_error_In; eauto.
+            + apply in_or_app. left. auto. }
+        split.
+        { intros j Hj. apply in_app_or in Hj. destruct Hj as [Hj|[<-|[]]].
+          - rewrite nth_upd_other; auto. intro E; subst j. auto.
+          - apply nth_upd_same. lia. }
+        split; [rewrite map_app, Hmap; reflexivity|]. split; [apply NoDup_snoc; auto|]. split.
+        { intros j r' Hin. apply in_app_or in Hin. destruct Hin as [Hin|[Hin|[]]].
+          - destruct (Hres _ _ Hin) as [pa' [Hpa' Hr']]. exists pa'. split; auto.
+            rewrite nth_upd_other; auto. intro E; subst j. apply Hni. rewrite <- Hmap. apply in_map_iff. exists (i, r'). auto.
+          - inversion Hin; subst j r'. exists (snd (run_sect k sa)). split; [apply nth_upd_same; auto|].
+            rewrite Hr. f_equal. auto. }
+        left. auto.
+      - (* PhD: a finished request does not acquire again *)
+        exfalso. assert (Hin : In i (map fst (snd acc))) by (rewrite Hmap; auto).
+        apply in_map_iff in Hin. destruct Hin as [[j r] [Ej Hin]]; simpl in Ej; subst j.
+        destruct (Hres _ _ Hin) as [pa' [Hpa' Hr]]. rewrite Hi in Hpa'. inversion Hpa'; subst pa'. congruence.
+    Qed.
+
+    Lemma G_reach : forall (a : astate) order (a' : astate), areach a order a' ->
+      forall phs done, G phs a done ->
+      exists phs' ext, G phs' a' (done ++ ext) /\ subseq ext order.
+    Proof.
+      induction 1 as [a|a i p m k rest a' Hi Hn Hr IH]; intros phs done HG.
+      - exists phs, []. rewrite app_nil_r. split; auto. constructor.
+      - destruct (G_step _ _ _ _ _ _ _ HG Hi Hn) as [phs1 [done1 [HG1 Hd]]].
+        destruct (IH _ _ HG1) as [phs' [ext [HG' Hss]]].
+        destruct Hd as [->| ->].
+        + exists phs', ext. split; auto. apply ss_skip. auto.
+        + exists phs', (i :: ext). rewrite <- app_assoc in HG'. split; auto. apply ss_keep. auto.
+    Qed.
+
+    (* THEOREM 3.  Requests that pass the gate (check under r, provisioning under w WITH a re-check, then the
+       handler's section) are equivalent to one-at-a-time execution of "provision ; handler" transactions,
+       in the order in which the handlers' sections acquired the lock. *)
+    Theorem gate_serializable (sch : list nat) (c' : config) (rs : list Resp) :
+      exec sch (init s0 progs) = Some c' -> finished c' rs ->
+      exists order,
+        Permutation order (seq 0 (length progs)) /\
+        subseq order sch /\
+        (forall a b, In a order -> In b order -> a <> b -> precedes sch a b -> before a b order) /\
+        obs (fst (spec_serial qs order s0)) = obs (fst c') /\
+        map fst (snd (spec_serial qs order s0)) = order /\
+        (forall i r, In (i, r) (snd (spec_serial qs order s0)) -> nth_error rs i = Some r).
+    Proof.
+      intros He Hfin.
+      destruct (sections_atomic _ _ _ _ _ progs_wf He Hfin) as [a' [Hr [Hobs Hf2]]].
+      destruct (G_reach _ _ _ Hr _ _ G_init) as [phs [order [HG Hss]]]. simpl in HG.
+      destruct HG as [Hlp [Hla [Hia [His [Hth [Hdone [Hmap [Hnd [Hres Hrel]]]]]]]]].
+      assert (Hlen : length progs = length qs) by (eapply Forall2_len; eauto).
+      assert (Hall : forall i ph, nth_error phs i = Some ph -> ph = PhD).
+      { intros i ph Hn. destruct (Hth _ _ Hn) as [q [pa [Eq [Epa Hph]]]].
+        destruct (Forall2_nth _ _ _ _ _ Hf2 Epa) as [r [_ Hret]].
+        assert (Hq : In q qs) by (eapply nth_error_In; eauto).
+        destruct ph; auto; exfalso.
+        - rewrite Hph in Hret. discriminate.
+        - subst pa. discriminate.
+        - destruct Hph as [-> _]. destruct (HoneH q Hq) as [m [k [Hn' _]]]. congruence. }
+      assert (Hsub : subseq order sch) by (eapply subseq_trans; [eauto|apply acq_order_subseq]).
+      exists order. split.
+      { apply NoDup_Permutation; auto using seq_NoDup. intro x. rewrite in_seq. split.
+        - intro Hin. pose proof (Hdone _ Hin) as Hx. apply nth_some_lt in Hx. lia.
+        - intros [_ Hlt]. simpl in Hlt. destruct (nth_error phs x) as [ph|] eqn:E; [|apply nth_error_None in E; lia].
+          pose proof (Hall _ _ E); subst ph. destruct (Hth _ _ E) as [q [pa [_ [_ Hin]]]]. auto. }
+      split; [auto|]. split.
+      { intros a b Ha Hb Hab Hp. eapply realtime_subseq; eauto. }
+      split.
+      { rewrite <- Hobs. destruct Hrel as [Hl|[w [qw [Hw _]]]]; [auto|]. pose proof (Hall _ _ Hw). discriminate. }
+      split; [auto|].
+      intros i r Hin. destruct (Hres _ _ Hin) as [pa [Hpa Hn]].
+      destruct (Forall2_nth _ _ _ _ _ Hf2 Hpa) as [y [Hy Hny]]. rewrite Hn in Hny. inversion Hny; subst. auto.
+    Qed.
+  End Gate.
 End Proofs.
